@@ -529,7 +529,7 @@ class Gen:
     def load_expr(s, t, pv):
         r = s.res(t)
         if r.k == 'int':
-            n = s.size_align(r)[0]
+            n = (r.n + 7) // 8            # the *store size* of iN (i48 touches 6 bytes), not its padded allocation size
             if r.n % 8 == 0: return 'rt.ld(%s, %d)' % (pv, n)
             return 'rt.ld_bits(%s, %d, %d)' % (pv, n, r.n)
         if r.k == 'ptr': return 'rt.ld(%s, 8)' % pv
@@ -539,7 +539,7 @@ class Gen:
     def store_stmt(s, t, pv, v):
         r = s.res(t)
         if r.k == 'int':
-            n = s.size_align(r)[0]
+            n = (r.n + 7) // 8
             if r.n == 1: return 'rt.st(%s, 1, %s.zext(8) if %s.__class__ is S else int(%s))' % (pv, v, v, v)
             return 'rt.st(%s, %d, %s)' % (pv, n, v)
         if r.k == 'ptr': return 'rt.st(%s, 8, %s)' % (pv, v)
